@@ -79,8 +79,11 @@ func c11Program(rng *rand.Rand) []vfOp {
 			woff += n
 		case x < 68:
 			ops = append(ops, vfOp{K: "readdir", H: use()})
-		case x < 74:
+		case x < 72:
 			ops = append(ops, vfOp{K: "fstat", H: use()})
+		case x < 74:
+			// a request on the handle that is served through the command path (the handle's objects must survive it)
+			ops = append(ops, vfOp{K: "fsetstat", H: useM(), B: waPerm, N: 0o600 + rng.IntN(64)})
 		case x < 92:
 			h := useM()
 			ops = append(ops, vfOp{K: "close", H: h})
